@@ -15,7 +15,8 @@ EXPLANATION = (
     'transitively read-only. R15.3: the temporary directory is created only '
     'in __enter__ and removed in __exit__ of a class that is only used as a '
     'with-item. Decides the property completely relative to the primitive '
-    'table.')
+    'table.'
+    " R15.4: every validation check (build-name comparison, cache reader, validators, argument type tests) precedes every effect wherever it lives. R15.5: no effect unless the build name was compared, except when the name is None or there is no cache file. R15.6: the reader returns normally only after it decoded with the writer's inverse codec and established dict / software tag / format version.")
 
 EFFECTS = (DESTROY, CREATE, USER, UNKNOWN)
 
